@@ -110,6 +110,10 @@ MUTANTS = [
     ("harvester-file-from-constructor-engine", "C14", FA,
      "        # the file actually written by ``save_ds`` carries the extension\n        file_name = auto_add_extension(self.data_name, engine)\n",
      "        # the file actually written by ``save_ds`` carries the extension\n        file_name = auto_add_extension(self.data_name, self.engine)\n"),
+    # ---- fourth review round --------------------------------------------------------------
+    ("load-uses-bare-name-when-it-exists", "C14", MG,
+     "    file_name = auto_add_extension(file_name, engine)\n\n    if not os.path.exists(file_name) and create_new:",
+     "    if not os.path.exists(file_name):\n        file_name = auto_add_extension(file_name, engine)\n\n    if not os.path.exists(file_name) and create_new:"),
 ]
 
 # Equivalent in this environment (NOT caught, and cannot be: behaviour is unchanged):
